@@ -706,7 +706,13 @@ def corruptions_ctor(rng):
         return H[int(rng.integers(0, len(H)))]
 
     def m_neg(Hc, Hn, dt, kw):
-        dt[int(rng.integers(0, len(dt)))] *= -1
+        j = int(rng.integers(0, len(dt)))
+        # an ordinary negative duration, or one so small that sums of the durations do not notice it
+        dt[j] = -dt[j] if rng.random() < 0.5 else -10.0**rng.uniform(-300, -16)
+        if rng.random() < 0.3:
+            dt[j:j] = [float(rng.uniform(1, 300))]     # (a long segment in front of it)
+            for it in Hc + Hn:
+                it[1] = list(it[1][:j]) + [float(it[1][0])] + list(it[1][j:])
         return {'ValueError'}
 
     def m_cplx(Hc, Hn, dt, kw):
